@@ -7,11 +7,11 @@ V = os.path.dirname(os.path.dirname(os.path.abspath(__file__)))
 
 # id -> (proved: what the discharged obligations say, note: scope / what is trusted or left out)
 AB = {
-"C03": ("RelayPayment reaches AddEpochPayment (the point where a relay is accepted) only when IsUniqueEpochSessionExists was just false for exactly (epochStart, relay.Provider, project.Index, relay.SpecId, relay.SessionId) and epochStart is not before the earliest epoch in memory; AddEpochPayment marks exactly that key as paid; both key helpers build the key from exactly the five components. CuSum is not part of the key.",
+"C03": ("RelayPayment reaches AddEpochPayment (the point where a relay is accepted) only when IsUniqueEpochSessionExists was just false for exactly (epochStart, relay.Provider, project.Index, relay.SpecId, relay.SessionId) and epochStart is not before the earliest epoch in memory; AddEpochPayment marks exactly that key as paid; both key helpers build the key from exactly the five components; cleaning up a dropped epoch deletes only records reached through an iterator over exactly that epoch's key prefix. CuSum is not part of the key.",
         "Modular over the KV store: the unique-session store is a ghost function of the key (IsUniqueEpochSessionExists is a 'function' of its arguments and the store version). Injectivity of UniqueEpochSessionKey's string encoding and RemoveOldEpochPayments are not under contract; transaction atomicity (a failed tx reverts the marker) is cosmos-sdk behaviour."),
 "C04": ("EnforceClientCUsUsageInEpoch returns at most the signed relay CU and keeps the epoch total within the allowance (both limit branches, uint64 wrap modelled); AddEpochPayment's running total includes this relay (no wrap: saturating add, fixed); lavaslices.Min returns a minimum; RelayPayment credits at most rewardedCU after QoS and rewardedCU <= relay.CuSum.",
         "The allowance (policy, downtime factor) comes from keeper calls with trusted frames; QoS weight is trusted to lie in [0,1]."),
-"C05": ("At the point of no return (AddEpochPayment) every relay in RelayPayment satisfies: provider address equals the sender, relay.LavaChainId equals the chain id, 0 <= epoch <= height, the client is the recovered signer or - after a passed checkBadge - the badge signer, the badge is for this chain/epoch/user, the project found for that client at that epoch is enabled, the epoch start is still in memory; CU is charged only with spec found and enabled and pairing valid.",
+"C05": ("At the point of no return (AddEpochPayment) every relay in RelayPayment satisfies: provider address equals the sender, relay.LavaChainId equals the chain id, 0 <= epoch <= height, the client is the recovered signer or - after a passed checkBadge - the badge signer, the badge is for this chain/epoch/user, the project found for that client at that epoch is enabled, the epoch start is still in memory; CU is charged only with spec found and enabled and pairing valid; ValidatePairingForClient reads, computes and caches the pairing list for the relay's own project index, chain and epoch (an epoch start).",
         "Signature recovery, GetProjectData and ValidatePairingForClient are trusted callee contracts (the pairing computation itself is C02, not claimed). 'Rejected without changing anything' is not proved as a frame: RelayPayment writes the store only through the calls listed, but continue-paths after AddEpochPayment rely on tx revert."),
 "C08": ("CalcRewards splits a reward into provider and delegators parts that add up exactly, are non-negative, give the provider its own stake share plus commission on the rest (whole reward at 100% commission); CalcDelegatorReward is the credit share rounded down and never exceeds the pool; updateDelegatorsReward's leftover is the pool minus all shares, within [0, pool]. Division by zero and negative Coins.Sub are excluded (safety obligations).",
         "Coins/Int arithmetic uses the library model of cosmossdk.io/math (mathematical integers, truncated division); delegation credits come from C23."),
@@ -21,16 +21,16 @@ AB = {
         "The fixation store and timer store are trusted frames ('only the entry handed in is written'); values found in the store are linked by ghost functions (site assumptions); CreateFutureSubscription (advance purchase pricing) and the timer that triggers advanceMonth (C15) are not under contract."),
 "C13": ("Over a ghost reference count per plan version: advanceMonth only ever lowers the count of the version the subscription held at entry, and by at most one; RemoveExpiredSubscription releases at most the named version once; a successful renewal moves the one reference from the old to the new version and a failed one moves none.",
         "PlansKeeper.GetPlan/PutPlan are trusted ghost specifications of the reference counter; the fixation store's own deletion rule (C14) and CreateFutureSubscription are not under contract. Advance-purchase activation leaks the old version's reference (never released) - a leak, not an availability violation, noted."),
-"C16": ("GetEpochStartForBlock returns a start on the fixation grid, not after the block, with the block inside that epoch; IsEpochStart iff offset zero; GetNextEpoch is strictly later; UpdateEarliestEpochstart only moves the earliest epoch forward and drops an epoch only when it is older than the blocks-to-save window in force at that epoch (loop invariant).",
+"C16": ("GetEpochStartForBlock returns a start on the fixation grid, not after the block, with the block inside that epoch; IsEpochStart iff offset zero; GetNextEpoch is strictly later; GetPreviousEpochStartForBlock returns what the grid gives for the block before the target epoch start (strictly earlier than the block); UpdateEarliestEpochstart only moves the earliest epoch forward and drops an epoch only when it is older than the blocks-to-save window in force at that epoch (loop invariant).",
         "Fixated parameters come from the fixation store through a trusted lookup contract (fixation block <= block); 'epoch starts are exactly where epoch-start processing ran' is not under contract."),
-"C18": ("checkBadge accepts only if relay CU plus the used CU found fits the allocation (no uint64 wrap), only for the badge's own user, epoch and chain, and a new usage record gets an expiry in the future; handleBadgeCu stores exactly found + relay CU, within the allocation; RelayPayment calls them with the preconditions they need.",
+"C18": ("checkBadge accepts only if relay CU plus the used CU found fits the allocation (no uint64 wrap), only for the badge's own user, epoch and chain, and a new usage record gets an expiry in the future, computed from the blocks-to-save window in force at the badge's own epoch; handleBadgeCu stores exactly found + relay CU, within the allocation; RelayPayment calls them with the preconditions they need.",
         "The used-CU record found in the store is a ghost value; per-transaction only (several relays of one transaction using the same badge are covered because the record is re-read per relay)."),
-"C19": ("A provider is punished only with complaints > 4 * serviced CU (wrap modelled), only while the per-chain count of non-frozen providers (defined by per-entry step clauses) minus the providers already jailed in this call exceeds the smallest max-providers-to-pair of all plans; the jailed entry is the complained provider on the counted chain; the jail counter resets only after 24h, the third jail within a day freezes for a day, a soft jail lasts an hour, and the punished complaints are deleted.",
+"C19": ("A provider is punished only with complaints > 4 * serviced CU (wrap modelled), where serviced CU is accumulated over exactly the serviced-CU window and complaints over exactly the complaints window (step clauses), only while the per-chain count of non-frozen providers (defined by per-entry step clauses) minus the providers already jailed in this call exceeds the smallest max-providers-to-pair of all plans; the jailed entry is the complained provider on the counted chain; the jail counter resets only after 24h, the third jail within a day freezes for a day, a soft jail lasts an hour, and the punished complaints are deleted.",
         "Stake-history length (minHistoryBlock) and GetAllProviderEpochComplainerCuStore are trusted/pure; time model over mathematical seconds within a stated range."),
-"C20": ("Commit only in the commit phase by a listed voter once, recording the commitment; reveal only in the reveal phase after the voter's own commit, with a hash matching the commitment and a valid choice; other votes untouched; phase transitions only at an epoch start after the deadline; the winner holds more than half of the counted stake and is the largest option; each option counts only its own votes (step clauses).",
+"C20": ("Commit only in the commit phase by a listed voter once, recording the commitment; reveal only in the reveal phase after the voter's own commit, with a hash matching the commitment and a valid choice; other votes untouched; phase transitions only at an epoch start after the deadline; the winner holds more than half of the counted stake and is the largest option; each option counts only its own votes, and exactly the staked voters without one of the three choices (no vote, or committed but not revealed) become non-voters (step clauses).",
         "Stake of a voter comes from GetStakeEntry (assumed non-negative); reward/slash amounts after the outcome are not under contract."),
-"C21": ("isEndOfMonth is true exactly when the next refill is less than a day away (or, with no timer, never).",
-        "PARTIAL: only the leftover-vs-distribution routing clause. Refill/burn amounts, block reward bound and bonus bound are not under contract."),
+"C21": ("isEndOfMonth is true exactly when the next refill is less than a day away (or, with no timer, never); a refill burns floor(rate * balance) of the distribution pool (the configured LeftoverBurnRate for the validators' pool, everything for the providers' pool) and then moves allocation / months-left from the allocation pool into it, both pools with the same months-left; the validators' block reward is pool * factor / blocks truncated with factor <= 1 (BondedTargetFactor proved in [0, 1 + 1e-18]) and at least two blocks to go, so it never exceeds the pool; provider bonus rewards are paid from the providers' distribution pool and their running total - the exact sum of the rewards paid - never exceeds the balance read at the start.",
+        "Pool balances come from the bank through TotalPoolTokens (a trusted function of the store); parameter ranges (LowFactor, bonded targets in [0,1], min < max) are stated domain assumptions; SpecEmissionParts and the base pay records are trusted to be non-negative."),
 "C23": ("CalculateCredit/CalculateMonthlyCredit return a credit in [0, max(amount, stored credit)], equal to the amount after 30 unchanged days; SetDelegation keeps CreditTimestamp <= Timestamp and the stored credit within the previous amounts; lemma: for a delegation without credit history, a later evaluation time never lowers the monthly credit.",
         "'Largest amount held during the last 30 days' is encoded as max(current amount, stored credit), the two quantities the code keeps; time arithmetic over a stated timestamp range."),
 "C24": ("setReputationPairingScoreByBenchmark stores a score in [min, max] equal to the scaled benchmark ratio; lemma: the scaling is order preserving in the QoS score; calcDecayFactor is in [0,1]; ApplyTimeDecayAndUpdateScore returns a valid reputation or an error and never fails on valid input.",
@@ -61,7 +61,7 @@ AB = {
 
 NOT_REACHED = {
 "C26": "injectivity of the concatenation: parts are joined without separators, so two different field tuples with the same concatenation are not excluded by these obligations",
-"C21": "refill and burn amounts, block reward <= pool, bonus rewards <= pool",
+
 "C34": "goroutine / channel / ticker behaviour of the state machine",
 "C27": "interleavings beyond the atomic counter; relay number replay protection",
 "C28": "session exclusivity and relay numbers under concurrency",
